@@ -18,4 +18,5 @@ Tr_Self       == "B"
 Tr_SubFrames  == {}
 Tr_LocalPats  == {}
 Tr_OwnIds     == {}
+Tr_FixRecheck == TRUE
 =============================================================================
